@@ -1136,3 +1136,121 @@ Proof.
   vm_compute in E1, E2. inversion E1; inversion E2; subst. clear E1 E2.
   do 6 eexists. repeat split; reflexivity.
 Qed.
+
+(* ------------------------------------------------------------------ the number a REFUSED cg_open leaves in the caller's variable *)
+(* current code: whatever the table looked like, the number left by a failed cg_open does not resolve (the entry was given back
+   with mode CG_MODE_CLOSED, or the whole table was released and the offset moved past the number), and cg_close of it is
+   refused without touching anything *)
+Theorem failed_open_number_dead : forall m oc m' fn,
+  cg_open MCur m oc = (m', None) -> fn_left m oc = Some fn ->
+  cgi_get_file m' fn = None /\ forall ok, cg_close MCur m' fn ok = (m', false).
+Proof.
+  intros m oc m' fn Op Fl. destruct oc; simpl in Fl; try discriminate; inversion Fl; subst; clear Fl.
+  (* OCgioFail stores nothing, OSuccess does not return an error: OLateFail is left *)
+  - unfold cg_open in Op. simpl in Op. inversion Op; subst; clear Op.
+    unfold mll_release. simpl.
+    destruct (Nat.eqb (n_open m - 0) 0) eqn:E.
+    + assert (Q : cgi_get_file
+        {| n_open := 0; files := []; fsize := 0; foffset := foffset m + length (files m ++ [Some (nexth m)]);
+           held := rem1 (nexth m) (nexth m :: held m); nexth := S (nexth m) |} (length (files m) + 1 + foffset m) = None).
+      { unfold cgi_get_file. simpl. rewrite app_length. simpl.
+        replace (length (files m) + 1 + foffset m <=? foffset m + (length (files m) + 1)) with true; [reflexivity|].
+        symmetry. apply Nat.leb_le. lia. }
+      split; [exact Q|]. intros ok. unfold cg_close. simpl. rewrite app_length. simpl.
+      replace (length (files m) + 1 + foffset m <=? foffset m + (length (files m) + 1)) with true; [reflexivity|].
+      symmetry. apply Nat.leb_le. lia.
+    + assert (N : nth (length (files m) + 1 + foffset m - foffset m - 1) (upd (files m ++ [Some (nexth m)]) (length (files m)) None) None = None).
+      { replace (length (files m) + 1 + foffset m - foffset m - 1) with (length (files m)) by lia.
+        apply nth_upd_eq. rewrite app_length. simpl. lia. }
+      split.
+      * unfold cgi_get_file. simpl.
+        destruct ((length (files m) + 1 + foffset m <=? foffset m) || _); [reflexivity|]. rewrite N. reflexivity.
+      * intros ok. unfold cg_close. simpl.
+        destruct ((length (files m) + 1 + foffset m <=? foffset m) || _); [reflexivity|]. rewrite N. reflexivity.
+Qed.
+
+(* the code before def473d returned CG_ERROR with everything in place: the number left by the refused open resolved *)
+Lemma failed_open_number_alive_old :
+  exists m', cg_open MOld mll_init OLateFail = (m', None) /\ fn_left mll_init OLateFail = Some 1 /\ cgi_get_file m' 1 = Some 0.
+Proof. eexists. split; [reflexivity|]. split; reflexivity. Qed.
+
+(* ... and it stays dead for the rest of the process: "at or below the high-water mark, and its entry (while the table lives) is
+   closed" is preserved by every cg_open and cg_close -- closed entries are never filled again, new ones are appended, and a
+   released table moves the offset past every number it ever covered *)
+Definition dead (m : mll) (fn : nat) : Prop :=
+  fn <= length (files m) + foffset m /\ (foffset m < fn -> nth (fn - foffset m - 1) (files m) None = None).
+
+Lemma dead_get m fn : dead m fn -> cgi_get_file m fn = None.
+Proof.
+  intros [H1 H2]. unfold cgi_get_file.
+  destruct (Nat.leb_spec fn (foffset m)); simpl; [reflexivity|].
+  destruct (Nat.ltb_spec (length (files m)) (fn - foffset m)); [reflexivity|].
+  rewrite H2 by lia. reflexivity.
+Qed.
+
+Lemma dead_release m fn i h : dead m fn -> dead (mll_release MCur m i h) fn.
+Proof.
+  intros [H1 H2]. unfold mll_release. destruct (Nat.eqb (n_open m - 1) 0).
+  - split; simpl; lia.
+  - split; simpl.
+    + rewrite upd_length. exact H1.
+    + intros Hf. destruct (Nat.eq_dec i (fn - foffset m - 1)) as [->|Hne].
+      * destruct (Nat.lt_ge_cases (fn - foffset m - 1) (length (files m))).
+        -- apply nth_upd_eq. assumption.
+        -- rewrite upd_out by lia. apply H2. exact Hf.
+      * rewrite nth_upd_neq by exact Hne. apply H2. exact Hf.
+Qed.
+
+Lemma dead_append m fn x no sz hl nh :
+  dead m fn -> dead (mkmll no (files m ++ [x]) sz (foffset m) hl nh) fn.
+Proof.
+  intros [H1 H2]. split; simpl.
+  - rewrite app_length. simpl. lia.
+  - intros Hf. rewrite app_nth1 by lia. apply H2. exact Hf.
+Qed.
+
+Lemma dead_cg_open m fn oc m' r : dead m fn -> cg_open MCur m oc = (m', r) -> dead m' fn.
+Proof.
+  intros D Op. unfold cg_open in Op. destruct oc.
+  - inversion Op; subst. exact D.
+  - inversion Op; subst. apply dead_release. apply dead_append. exact D.
+  - inversion Op; subst. apply dead_append. exact D.
+Qed.
+
+Lemma dead_cg_close m fn c ok m' r : dead m fn -> cg_close MCur m c ok = (m', r) -> dead m' fn.
+Proof.
+  intros D Cl. unfold cg_close in Cl.
+  destruct ((c <=? foffset m) || (length (files m) <? c - foffset m)); [inversion Cl; subst; exact D|].
+  destruct (nth (c - foffset m - 1) (files m) None); [|inversion Cl; subst; exact D].
+  destruct ok; inversion Cl; subst; [apply dead_release|]; exact D.
+Qed.
+
+Lemma dead_run : forall ops m live fn m' live', dead m fn -> mh_run MCur m live ops = (m', live') -> dead m' fn.
+Proof.
+  induction ops as [|o ops IH]; intros m live fn m' live' D R; simpl in R.
+  - inversion R; subst. exact D.
+  - destruct o as [oc|c ok]; simpl in R.
+    + destruct (cg_open MCur m oc) as [m1 r] eqn:Op. eapply IH; [|exact R]. eapply dead_cg_open; eauto.
+    + destruct (cg_close MCur m c ok) as [m1 r] eqn:Cl. eapply IH; [|exact R]. eapply dead_cg_close; eauto.
+Qed.
+
+Lemma failed_open_dead m oc m' fn : cg_open MCur m oc = (m', None) -> fn_left m oc = Some fn -> dead m' fn.
+Proof.
+  intros Op Fl. destruct oc; simpl in Fl; try discriminate; inversion Fl; subst; clear Fl.
+  unfold cg_open in Op. simpl in Op. inversion Op; subst; clear Op.
+  unfold mll_release. simpl. destruct (Nat.eqb (n_open m - 0) 0).
+  - split; simpl; rewrite ?app_length; simpl; lia.
+  - split; simpl.
+    + rewrite upd_length, app_length. simpl. lia.
+    + intros _. replace (length (files m) + 1 + foffset m - foffset m - 1) with (length (files m)) by lia.
+      apply nth_upd_eq. rewrite app_length. simpl. lia.
+Qed.
+
+(* THE STATEMENT: from any table, the number a refused cg_open left behind resolves to nothing, now and after any further
+   opens and closes *)
+Theorem failed_open_number_never_resolves : forall m oc m' fn live ops m'' live'',
+  cg_open MCur m oc = (m', None) -> fn_left m oc = Some fn ->
+  mh_run MCur m' live ops = (m'', live'') -> cgi_get_file m'' fn = None.
+Proof.
+  intros. apply dead_get. eapply dead_run; [|eassumption]. eapply failed_open_dead; eauto.
+Qed.
